@@ -42,6 +42,7 @@ RULE = ("part1 (frames): payload length L x opcode {Text,Binary,Close,Ping,Pong}
         "frames, fixed read size 1..65536, random positions, positions around headers/junctions); oracle = the "
         "sent frame list; non-trivial = a cut strictly inside a frame header or a read containing bytes of two "
         "frames, distinct by (frames, cut set).")
+RULE += (" " + "Round-8 addition (part1): for binary and control frames the payload object is bytes, a bytearray, or a bytearray whose frame object is written twice (derived from the masking key): the second write is the same RFC encoding and the application's bytearray is unchanged afterwards.")
 ASSUMPTIONS = [
     "the harness's reference RFC 6455 codec (checked against the examples of RFC 6455 section 5.7) is trusted",
     "client streams are well-formed: FIN=1, RSV=0, masked, opcodes Text/Binary/Ping/Pong/Close only (the library "
